@@ -310,3 +310,28 @@ def c15(run):
     trace, _ = run.exec("C15", cases=cases)
     run.validate("Trace_HDKeys", trace)
     return finish(run, assumptions=HD_ASSUME + ["the buffers inspected after Zero are the four slices captured through the verif hook before the call"])
+
+
+GCS_ASSUME = ["SipHash-2-4 is an environment function (github.com/aead/siphash), logged positionally for the data items and query items; double-SHA256 facts for filter hash/header",
+              "the sort order of the reduced values is proposed by the harness and CHECKED by the specification (permutation + non-decreasing)",
+              "model bound: unary quotients up to 100000 (M / 2^P is kept below about 64 by the generators, as the property's quantifier states)"]
+
+
+# --------------------------------------------------------------------------- C13
+@prop("C13", "Trace_GCS")
+def c13(run):
+    run.build()
+    run.mc("MC_GCS")
+    trace, _ = run.exec("C13")
+    run.validate("Trace_GCS", trace, timeout=5400)
+    return finish(run, assumptions=GCS_ASSUME)
+
+
+# --------------------------------------------------------------------------- C14
+@prop("C14", "Trace_GCS")
+def c14(run):
+    run.build()
+    run.mc("MC_GCS")
+    trace, _ = run.exec("C14")
+    run.validate("Trace_GCS", trace, timeout=5400)
+    return finish(run, assumptions=GCS_ASSUME)
